@@ -35,6 +35,10 @@ CHECKS = {
         text="Lean proofs that the result does not depend on the modelled sources of ambient nondeterminism: set iteration order (sorting is permutation-invariant, with the regenerated fact that every loop over a type-name set iterates sorted(...)), directory-listing order of the template folder (permutation of the code model, via C04 isolation), clock/platform (no shipped template mentions the tags; search-and-replace is the identity there), and the absolute LostCode name; interpreter-level configurations (PYTHONHASHSEED, TZ, cwd, 6 spellings of the output directory, fake clock, shuffled os.walk) are exercised by a subprocess matrix comparing trees bytewise.",
         ref="DESIGN.md 6/C06", technique="Lean 4 proof (permutation invariance, regenerated template facts) + subprocess configuration matrix + path-model correspondence",
         note="The path algebra (join/normpath/abspath) is validated against os.path by correspondence, not proved equal under re-spelling; hash randomisation and os.walk themselves are runtime behaviour outside any model."),
+    "C14": dict(
+        text="Lean proof, for every preamble, every well-formed stream (fillers free of the preamble's first byte, messages with arbitrary payload) and EVERY list of chunks whose concatenation is the stream, that the modelled IConnection delivers exactly the messages, once, in order, byte-exact, and returns to its initial state (C14_reassembly, C14_chunking_independent, C14_prefix, via the single-chunk step theorem proved by strong induction on the chunk length following the code's branches); a state invariant for arbitrary input bounds every buffer index (C14_state_invariant, C14_header_read_in_bounds); tied to the code by running the compiled IConnection.cpp (ASan+UBSan build and _GLIBCXX_ASSERTIONS build) and the model on the same chunk lists, exhaustively over all cut subsets of short streams.",
+        ref="DESIGN.md 6/C14, Appendix B", technique="Lean 4 proof (invariant + strong induction over chunk length, all chunkings) + compiled-probe correspondence with sanitizers",
+        note="Domain: bytes < 256, message length < 2^32 (uint32 wrap-around excluded), non-ARM build. Memory safety of the C++ itself is supported by sanitizer runs, not proved against the C++ abstract machine."),
 }
 PENDING = {}
 
